@@ -75,6 +75,8 @@ type sys struct {
 	progs   [][]section
 	hist    []histOp
 	done    int
+	lastEnd map[int]time.Duration // per context: when its latest attempt ended
+	finished map[int]bool
 	desc    string
 	incs    []int // committed increments per variable (counter vars)
 }
@@ -192,7 +194,9 @@ func (s *sys) runCtx(c int) {
 	attempts := make([]int, len(prog))
 	var cur []step
 	var call int64
+	s.lastEnd[c] = w.Now()
 	rec := &ulib.Recorder{OnEvent: func(ev trace.Event) {
+		s.lastEnd[c] = w.Now() // an attempt ended (committed or aborted): this context is not blocked
 		if cur == nil {
 			return
 		}
@@ -307,12 +311,13 @@ func (s *sys) runCtx(c int) {
 		if err := ctx.Run(); err != nil {
 			w.Fail("run_error", "context %d: Run returned %v | %s", c, err, s.desc)
 		}
+		s.finished[c] = true
 		s.done++
 	})
 }
 
 func scenario(w *sim.World) {
-	s := &sys{w: w}
+	s := &sys{w: w, lastEnd: map[int]time.Duration{}, finished: map[int]bool{}}
 	s.generate()
 	w.Event("cfg %s", s.desc)
 	for c := range s.progs {
@@ -322,7 +327,23 @@ func scenario(w *sim.World) {
 	ok := w.Await(func() bool { return s.done == len(s.progs) }, 30*time.Minute)
 	lastHistory, lastVars, lastDesc, lastIndexed = s.hist, s.nVars, s.desc, s.indexed
 	if !ok {
-		w.Fail("no_progress", "after 30 simulated minutes only %d of %d archetypes finished: an acquisition blocks forever or sections starve | %s", s.done, len(s.progs), s.desc)
+		// The property promises that an acquisition which cannot succeed aborts instead of
+		// blocking for ever, not that contending sections eventually win (stalled holders
+		// and short time-outs can starve everybody by time-outs for as long as the
+		// schedule likes). So: a context none of whose attempts has ended for 5 simulated
+		// minutes (lock time-outs <= 1 s, stalls <= 2 s, <= 6 operations) is blocked: a
+		// violation; contexts that keep aborting and retrying are starved: counted.
+		blocked := ""
+		for c := range s.progs {
+			if !s.finished[c] && w.Now()-s.lastEnd[c] > 5*time.Minute {
+				blocked += fmt.Sprintf(" context %d: no attempt has ended since %v;", c, s.lastEnd[c])
+			}
+		}
+		if blocked != "" {
+			w.Fail("no_progress", "after 30 simulated minutes only %d of %d archetypes finished and an acquisition blocks for ever:%s | %s", s.done, len(s.progs), blocked, s.desc)
+		} else {
+			w.Probe("starved_by_timeouts")
+		}
 	}
 	w.Count("committed_sections", len(s.hist))
 	if len(s.progs) >= 3 {
